@@ -1590,11 +1590,9 @@ impl<'a> Visitor<'a> {
     }
 
     fn visit_warn_rule(&mut self, warn_rule: AstWarn) -> SassResult<()> {
-        if self.warnings_emitted.insert(warn_rule.span) {
-            let value = self.visit_expr(warn_rule.value)?;
-            let message = value.to_css_string(warn_rule.span, self.options.is_compressed())?;
-            self.emit_warning(&message, warn_rule.span);
-        }
+        let value = self.visit_expr(warn_rule.value)?;
+        let message = value.to_css_string(warn_rule.span, false)?;
+        self.emit_warning(&message, warn_rule.span);
 
         Ok(())
     }
